@@ -431,14 +431,33 @@ def run_query(mesh, q):
     """the implementation: returns the sorted list of vertex indices"""
     from classy_blocks.modify.find.geometric import GeometricFinder
     fnd = GeometricFinder(mesh)
-    if q["kind"] == "sphere":
-        if q["r"] is None:
-            res = fnd.find_in_sphere(list(q["p"]))
+    # every second query (chosen by the query itself, so that replays agree) is put to a finder that has answered before
+    # and whose mesh has been moved since: all vertices are shifted by d, the query is asked about the shifted geometry and
+    # the vertices are put back afterwards.  A finder answers about the vertices where they are now.
+    d = None
+    if int(hashlib.sha1(json.dumps(q, sort_keys=True, default=str).encode()).hexdigest()[:4], 16) % 2 == 0:
+        d = [0.75, -1.25, 0.5]
+        try:
+            fnd.find_in_sphere(list(q["p"]) if q["kind"] == "sphere" else list(q["o"]), 0.5)
+        except Exception:  # noqa: BLE001
+            pass
+        for v in mesh.vertices:
+            v.move_to([float(v.position[i]) + d[i] for i in range(3)])
+    sh = (lambda p: [float(p[i]) + d[i] for i in range(3)]) if d else (lambda p: list(p))
+    try:
+        if q["kind"] == "sphere":
+            if q["r"] is None:
+                res = fnd.find_in_sphere(sh(q["p"]))
+            else:
+                res = fnd.find_in_sphere(sh(q["p"]), q["r"])
         else:
-            res = fnd.find_in_sphere(list(q["p"]), q["r"])
-    else:
-        res = fnd.find_on_plane(list(q["o"]), list(q["n"]))
-    return sorted(v.index for v in res)
+            res = fnd.find_on_plane(sh(q["o"]), list(q["n"]))
+        out = sorted(v.index for v in res)
+    finally:
+        if d:
+            for v in mesh.vertices:
+                v.move_to([float(v.position[i]) - d[i] for i in range(3)])
+    return out
 
 
 def oracle_query(verts, q, found, tol):
@@ -788,6 +807,11 @@ def gen_block(rng, max_tilt=0.45, max_dist=0.16):
             tilt = lambda: rng.uniform(-max_tilt, max_tilt)
             od = unit(add(mul(-1.0, ey), add(mul(tilt(), ex), mul(tilt(), ez))))
             cd = unit(add(ez, add(mul(tilt(), ex), mul(tilt(), ey))))
+            if _v % 3 == 2:
+                # an oblique ceiling point: 50..65 degrees off the plane perpendicular to the viewing direction, towards the
+                # observer or away from it ("top" is decided in the observer's view plane, "front" by the observer alone)
+                a = rng.uniform(0.87, 1.13) * rng.choice([1, -1])
+                cd = unit(add(mul(math.cos(a), cd), mul(math.sin(a), od)))
             obs = [dyadic(q, 8) for q in add(ctr, mul(rng.uniform(3, 40), od))]
             cei = [dyadic(q, 8) for q in add(ctr, mul(rng.uniform(3, 40), cd))]
             why, amb = oracle_orientation(C, obs, cei)
